@@ -132,7 +132,13 @@ def run_prims(ctx):
             ctx.violation('reference|%s|%s' % (name, why),
                           '%s(%s) encodes to %s, the reference encoder gives %s' % (name, c01.short(pyv), data.hex()[:120], ref.hex()[:120]),
                           {'value': repr(pyv)[:100]})
-    ctx.sample({'primitive': 'BigInteger(-2**63)', 'note': 'see evidence cells prim|*'})
+    for name, typ, mk, pyv in CC.prim_values()[::41]:
+        try:
+            x = mk()
+            ctx.sample({'primitive': name, 'value': c01.short(pyv), 'library_hex': codec.encode(x, E.KMIPVersion.KMIP_1_2).hex()[:96],
+                        'reference_hex': T.encode((x.tag.value, typ, pyv)).hex()[:96]})
+        except Exception:
+            pass
 
 
 # ------------------------------------------------------------------ session responses
